@@ -466,7 +466,7 @@ fn main() {
     // ---- workload 4: generated classes (same generator as C01) x layouts, plain and renamed
     let cfg = gen::GenCfg::default();
     let big_cfg = gen::GenCfg { max_insns: 400, max_methods: 3, ..gen::GenCfg::default() };
-    let n = ctx.tier.pick(6_000, 160_000);
+    let n = ctx.tier.pick(20_000, 160_000);
     run_cases(&ctx, &replay, &mut rep, "generated", n, |rng, rep, i| {
         let m = if i % 16 == 15 { gen::gen_class(rng, &big_cfg) } else { gen::gen_class(rng, &cfg) };
         let feats = features::features(&m);
